@@ -1,189 +1,27 @@
 /-
-  Helper lemmas for the C02 growth item (`Props/C02b.lean`): the doubling loop of `flush_side`,
-  the basic tessellator fed with fresh (not necessarily increasing) ids, `Adv.vertex` cut into
-  pieces, the invariant of the two-level scheme, and the orientation of the basic tessellator's
-  triangles over an ordered field.
+  C02 growth (`Props/C02c.lean`), part 2: the two-level scheme of `AdvancedMonotoneTessellator`.
+
+  * the basic tessellator fed with a FRESH id (not necessarily the largest so far) keeps its
+    stack ids pairwise distinct and emits triangles with three distinct ids (`vertex_fresh`);
+  * `Adv.vertex` / `Adv.end_` cut into named pieces that are definitionally the model's functions
+    (`vertex_eq`, `end_eq` are `rfl`; mirrors lyon incl. fix 9b7220fb);
+  * the invariant `InvL`: with `k` vertices fed (ids `0 … k−1`) every id is in exactly one place —
+    the inner stack tessellator, or pending in the tail of one side's buffered chain — and
+    `triangles + inner stack + Σ_sides (buffered − 1) = k`;
+  * `run_spec` — `Adv.run` on `n ≥ 2` vertices: `n − 2` triangles, three distinct ids each, and
+    `run_ids_lt` — all ids `< n` (through `Lemmas/SweepIdxMono.lean`).
+
+  Purely discrete: holds for every scalar type, floats included.
 -/
-import LyonVerif.Props.C02
-import LyonVerif.Lemmas.Field
+import LyonVerif.Lemmas.MonotoneAdvFlush
+import LyonVerif.Lemmas.SweepIdxMono
 
 set_option linter.unusedSectionVars false
 set_option linter.unusedVariables false
 set_option linter.unusedSimpArgs false
 
-geom_all Lyon.Mono
-
-namespace Lyon.C02b
+namespace Lyon.C02c
 open Lyon Lyon.Mono Lyon.C02
-
-/-! ## `flush_side`'s doubling loop -/
-
-/-- number of triangles of one level -/
-theorem flushLevel_length (ev : Array Nat) (len step : Nat) (right : Bool) (hs : 1 ≤ step)
-    (hlt : step * 2 < len) :
-    (flushLevel ev len step right).length = (len - 1) / step - (len - 1) / (2 * step) := by
-  have hq2 : (len - 1) / (2 * step) = (len - 1) / step / 2 := by
-    rw [Nat.div_div_eq_div_mul, Nat.mul_comm]
-  have hm1 : 1 ≤ (len - 1) / (2 * step) := by
-    rw [Nat.le_div_iff_mul_le (by omega)]; omega
-  -- the extra triangle exists iff the number of steps is odd
-  have hcond : ∀ m, m = (len - 1) / (2 * step) → 1 ≤ m →
-      (((if (m == 0) = true then 0 else (m - 1) * 2 * step + step + step) + step < len) ↔
-        2 * m + 1 ≤ (len - 1) / step) := by
-    intro m _ hm
-    have h0 : (m == 0) = false := by simp; omega
-    rw [h0]
-    simp only [Bool.false_eq_true, if_false]
-    rw [Nat.le_div_iff_mul_le (by omega)]
-    obtain ⟨m', rfl⟩ : ∃ m', m = m' + 1 := ⟨m - 1, by omega⟩
-    have e1 : (m' + 1 - 1) * 2 * step = m' * (2 * step) := by
-      rw [Nat.add_sub_cancel, Nat.mul_assoc]
-    have e2 : (2 * (m' + 1) + 1) * step = m' * (2 * step) + 3 * step := by
-      rw [Nat.add_mul, Nat.mul_add, Nat.add_mul, Nat.mul_comm 2 m', Nat.mul_assoc]; omega
-    rw [e1, e2]
-    omega
-  unfold flushLevel
-  simp only [List.length_append, List.length_map, List.length_range]
-  have hc := hcond _ rfl hm1
-  by_cases hx : 2 * ((len - 1) / (2 * step)) + 1 ≤ (len - 1) / step
-  · rw [if_pos (hc.mpr hx)]
-    simp only [List.length_cons, List.length_nil]
-    omega
-  · rw [if_neg (fun h => hx (hc.mp h))]
-    simp only [List.length_nil]
-    omega
-
-theorem flushLevels_length (ev : Array Nat) (len : Nat) (right : Bool) (fuel step : Nat)
-    (hs : 1 ≤ step) (hf : len ≤ step + fuel) :
-    (flushLevels ev len right fuel step).length = (len - 1) / step - 1 := by
-  induction fuel generalizing step with
-  | zero =>
-    simp only [flushLevels, List.length_nil]
-    have : (len - 1) / step = 0 := Nat.div_eq_of_lt (by omega)
-    omega
-  | succ fuel ih =>
-    simp only [flushLevels]
-    split
-    · rename_i hlt
-      rw [List.length_append, flushLevel_length ev len step right hs hlt, ih (step * 2) (by omega) (by omega)]
-      have hq2 : (len - 1) / (2 * step) = (len - 1) / step / 2 := by
-        rw [Nat.div_div_eq_div_mul, Nat.mul_comm]
-      have hm1 : 1 ≤ (len - 1) / (2 * step) := by
-        rw [Nat.le_div_iff_mul_le (by omega)]; omega
-      rw [Nat.mul_comm step 2]
-      omega
-    · rename_i hge
-      have : (len - 1) / step < 2 := by
-        rw [Nat.div_lt_iff_lt_mul (by omega)]; omega
-      simp only [List.length_nil]
-      omega
-
-/-- **`flush_side` emits `len − 2` triangles** for a chain of `len` buffered ids. -/
-theorem flushLevels_count (ev : Array Nat) (len : Nat) (right : Bool) :
-    (flushLevels ev len right (len + 1) 1).length = len - 2 := by
-  rw [flushLevels_length ev len right (len + 1) 1 (by omega) (by omega), Nat.div_one]
-  omega
-
-
-/-- `t` is a triangle on three chain entries with increasing indices `a < b < c < len`, listed in
-increasing order on the left side and in an odd permutation of it on the right side (both shapes
-`flush_side` uses: `(b, a, c)` in its main loop, `(a, c, b)` for the leftover triangle). -/
-def ChainTri (ev : Array Nat) (len : Nat) (right : Bool) (t : Tri) : Prop :=
-  ∃ a b c, a < b ∧ b < c ∧ c < len ∧
-    (if right then t = (ev.getD b 0, ev.getD a 0, ev.getD c 0) ∨ t = (ev.getD a 0, ev.getD c 0, ev.getD b 0)
-     else t = (ev.getD a 0, ev.getD b 0, ev.getD c 0))
-
-theorem flushLevel_chainTri (ev : Array Nat) (len step : Nat) (right : Bool) (hs : 1 ≤ step)
-    (hlt : step * 2 < len) : ∀ t ∈ flushLevel ev len step right, ChainTri ev len right t := by
-  have hm1 : 1 ≤ (len - 1) / (2 * step) := by
-    rw [Nat.le_div_iff_mul_le (by omega)]; omega
-  have hle : (len - 1) / (2 * step) * (2 * step) ≤ len - 1 := Nat.div_mul_le_self _ _
-  intro t ht
-  unfold flushLevel at ht
-  simp only [List.mem_append, List.mem_map, List.mem_range] at ht
-  rcases ht with ⟨i, hi, rfl⟩ | ht
-  · refine ⟨i * 2 * step, i * 2 * step + step, i * 2 * step + step + step, by omega, by omega, ?_, ?_⟩
-    · have : (i + 1) * (2 * step) ≤ (len - 1) / (2 * step) * (2 * step) := Nat.mul_le_mul_right _ hi
-      have e : (i + 1) * (2 * step) = i * 2 * step + step + step := by
-        rw [Nat.add_mul, Nat.mul_assoc]; omega
-      omega
-    · cases right <;> simp
-  · obtain ⟨m', hm'⟩ : ∃ m', (len - 1) / (2 * step) = m' + 1 := ⟨(len - 1) / (2 * step) - 1, by omega⟩
-    rw [hm'] at ht
-    have h0 : (m' + 1 == 0) = false := by simp
-    simp only [h0, Bool.false_eq_true, if_false, Nat.add_sub_cancel] at ht
-    split at ht
-    · rename_i hlt2
-      simp only [List.mem_singleton] at ht
-      refine ⟨0, m' * 2 * step + step + step, m' * 2 * step + step + step + step, by omega, by omega, hlt2, ?_⟩
-      cases right <;> simp [ht]
-    · simp at ht
-
-theorem flushLevels_chainTri (ev : Array Nat) (len : Nat) (right : Bool) (fuel step : Nat) (hs : 1 ≤ step) :
-    ∀ t ∈ flushLevels ev len right fuel step, ChainTri ev len right t := by
-  induction fuel generalizing step with
-  | zero => intro t ht; simp [flushLevels] at ht
-  | succ fuel ih =>
-    intro t ht
-    simp only [flushLevels] at ht
-    split at ht
-    · rename_i hlt
-      rcases List.mem_append.mp ht with h | h
-      · exact flushLevel_chainTri ev len step right hs hlt t h
-      · exact ih (step * 2) (by omega) t h
-    · simp at ht
-
-/-- **every triangle of `flush_side` uses three different chain positions** `a < b < c < len`. -/
-theorem flushLevels_ids (ev : Array Nat) (len : Nat) (right : Bool) :
-    ∀ t ∈ flushLevels ev len right (len + 1) 1, ChainTri ev len right t :=
-  flushLevels_chainTri ev len right (len + 1) 1 (by omega)
-
-/-- with pairwise distinct buffered ids the three ids of a chain triangle are distinct -/
-theorem chainTri_distinct (l : List Nat) (right : Bool) (hnd : l.Nodup) (t : Tri)
-    (h : ChainTri l.toArray l.length right t) : TriDistinct t := by
-  obtain ⟨a, b, c, hab, hbc, hc, h⟩ := h
-  have g : ∀ i, i < l.length → l.toArray.getD i 0 = l[i]! := by
-    intro i hi; simp [Array.getD, hi]
-  have inj : ∀ i j, i < j → j < l.length → l[i]! ≠ l[j]! := by
-    intro i j hij hj
-    have hi : i < l.length := by omega
-    simp only [getElem!_pos, hi, hj]
-    exact (List.pairwise_iff_getElem.mp hnd) i j hi hj hij
-  rw [g a (by omega), g b (by omega), g c hc] at h
-  have h1 := inj a b hab (by omega)
-  have h2 := inj b c hbc hc
-  have h3 := inj a c (by omega) hc
-  cases right
-  · simp only [Bool.false_eq_true, if_false] at h
-    subst h; exact ⟨h1, h2, h3⟩
-  · simp only [if_true] at h
-    rcases h with h | h <;> subst h
-    · exact ⟨h1.symm, h3, h2⟩
-    · exact ⟨h3, h2.symm, h1⟩
-
-
-/-- A small integer scalar, used only to evaluate the models in `decide`d examples (`x / y` is
-integer division; decimal literals `m·10^-e` are truncated, so scale coordinates by 10). -/
-structure ZS where
-  v : Int
-deriving DecidableEq, Repr
-
-instance : Scalar ZS where
-  add a b := ⟨a.v + b.v⟩
-  sub a b := ⟨a.v - b.v⟩
-  mul a b := ⟨a.v * b.v⟩
-  div a b := ⟨a.v / b.v⟩
-  neg a := ⟨-a.v⟩
-  lt a b := a.v < b.v
-  le a b := a.v ≤ b.v
-  beq a b := a.v == b.v
-  ofNat n := ⟨n⟩
-  ofSci m e := ⟨m / 10 ^ e⟩
-  dlt := fun a b => inferInstanceAs (Decidable (a.v < b.v))
-  dle := fun a b => inferInstanceAs (Decidable (a.v ≤ b.v))
-  abs a := ⟨a.v.natAbs⟩
-  min a b := if a.v ≤ b.v then a else b
-  max a b := if a.v ≤ b.v then b else a
 
 variable {α : Type} [Scalar α]
 
@@ -327,15 +165,19 @@ def flushOpp (tess : Basic α) (sideEv oppEv : SideEv α) (l : Bool) : Trip α :
   | some mv => (((tess.pushTris (flushSide oppEv l).2.1).vertex mv), { sideEv with consRefX := sideEv.refPt.x }, (flushSide oppEv l).1)
   | none => (tess, sideEv, oppEv)
 
-def flushOwn (tess : Basic α) (sideEv oppEv : SideEv α) (l : Bool) : Trip α :=
+/-- lyon 9b7220fb: after its own flush the restarted chain's reference folds in the new vertex -/
+def reRef (s : SideEv α) (p : P α) (l : Bool) : SideEv α :=
+  { s with refPt := ⟨if l then Scalar.max s.refPt.x p.x else Scalar.min s.refPt.x p.x, s.refPt.y⟩ }
+
+def flushOwn (tess : Basic α) (sideEv oppEv : SideEv α) (p : P α) (l : Bool) : Trip α :=
   match (flushSide sideEv (!l)).2.2 with
-  | some mv => (((tess.pushTris (flushSide sideEv (!l)).2.1).vertex mv), (flushSide sideEv (!l)).1, { oppEv with consRefX := oppEv.refPt.x })
+  | some mv => (((tess.pushTris (flushSide sideEv (!l)).2.1).vertex mv), reRef (flushSide sideEv (!l)).1 p l, { oppEv with consRefX := oppEv.refPt.x })
   | none => (tess, sideEv, oppEv)
 
 def stepSides (tess : Basic α) (sideEv oppEv : SideEv α) (dx : α) (p : P α) (id : Nat) (l : Bool) : Trip α :=
   let close : Bool := decide (dx < (p.y - sideEv.refPt.y) * Scalar.ofSci 1 1)
   let r1 := if isAfter sideEv.last.pos oppEv.last.pos then flushOpp tess sideEv oppEv l else (tess, sideEv, oppEv)
-  let r := if outwardTurn sideEv p l close || close then flushOwn r1.1 r1.2.1 r1.2.2 l else (tess, sideEv, oppEv)
+  let r := if outwardTurn sideEv p l close || close then flushOwn r1.1 r1.2.1 r1.2.2 p l else (tess, sideEv, oppEv)
   (r.1, r.2.1.push ⟨p, id, l⟩, r.2.2)
 
 def updRef (st : Adv α) (pos : P α) (isLeft : Bool) : Adv α :=
@@ -514,13 +356,15 @@ theorem flushSide_tris_distinct (s : SideEv α) (r : Bool) (hnd : s.events.Nodup
     ∀ t ∈ flushLevels s.events.toArray s.events.length r (s.events.length + 1) 1, TriDistinct t :=
   fun t ht => chainTri_distinct s.events r hnd t (flushLevels_ids _ _ r t ht)
 
-theorem flushOwn_inv (tess : Basic α) (a b : SideEv α) (l : Bool) (k : Nat) (h : Inv3 (tess, a, b) k) :
-    Inv3 (flushOwn tess a b l) k := by
+theorem flushOwn_inv (tess : Basic α) (a b : SideEv α) (p : P α) (l : Bool) (k : Nat) (h : Inv3 (tess, a, b) k) :
+    Inv3 (flushOwn tess a b p l) k := by
   unfold flushOwn
   rcases flushSide_cases a (!l) with ⟨_, e⟩ | ⟨hl, e1, e2, e3, e4⟩
   · rw [e]; exact h
   · rw [e4]
-    simp only [Inv3, e1, e2, e3]
+    have r1 : (reRef (flushSide a !l).1 p l).events = [a.last.id] := e1
+    have r2 : (reRef (flushSide a !l).1 p l).last = a.last := e2
+    simp only [Inv3, r1, r2, e3]
     exact InvL.flushFwd h hl _ 0 (flushLevels_count _ _ _) (Nat.le_refl 0) (flushSide_tris_distinct a _ h.nda) a.last rfl
 
 theorem flushOpp_inv (tess : Basic α) (a b : SideEv α) (l : Bool) (k : Nat) (h : Inv3 (tess, a, b) k) :
@@ -541,12 +385,12 @@ theorem stepSides_inv (tess : Basic α) (a b : SideEv α) (dx : α) (p : P α) (
     · exact h
   generalize (if isAfter a.last.pos b.last.pos then flushOpp tess a b l else (tess, a, b)) = r1 at h1 ⊢
   have h2 : Inv3 (if (outwardTurn a p l (decide (dx < (p.y - a.refPt.y) * Scalar.ofSci 1 1)) ||
-      decide (dx < (p.y - a.refPt.y) * Scalar.ofSci 1 1)) = true then flushOwn r1.1 r1.2.1 r1.2.2 l else (tess, a, b)) k := by
+      decide (dx < (p.y - a.refPt.y) * Scalar.ofSci 1 1)) = true then flushOwn r1.1 r1.2.1 r1.2.2 p l else (tess, a, b)) k := by
     split
-    · exact flushOwn_inv _ _ _ l k h1
+    · exact flushOwn_inv _ _ _ p l k h1
     · exact h
   generalize (if (outwardTurn a p l (decide (dx < (p.y - a.refPt.y) * Scalar.ofSci 1 1)) ||
-      decide (dx < (p.y - a.refPt.y) * Scalar.ofSci 1 1)) = true then flushOwn r1.1 r1.2.1 r1.2.2 l else (tess, a, b)) = r at h2 ⊢
+      decide (dx < (p.y - a.refPt.y) * Scalar.ofSci 1 1)) = true then flushOwn r1.1 r1.2.1 r1.2.2 p l else (tess, a, b)) = r at h2 ⊢
   exact InvL.push h2
 
 /-- the invariant on a whole `Adv` state -/
@@ -686,196 +530,56 @@ theorem run_spec (seq : List (P α × Bool)) :
     simp only [List.length_cons]
     omega
 
-/-! ## orientation of the basic tessellator's triangles (ordered field) -/
+/-! ## all ids below the number of vertices (through `Lemmas/SweepIdxMono.lean`) -/
 
-section Geometry
-variable {K : Type} [Field K] [LinearOrder K] [IsStrictOrderedRing K]
+open Lyon.SweepIdx in
+theorem afeed_ok {n : Nat} (vs : List (P α × Bool)) (s : Adv α) (k : Nat) (h : AdvOk n s)
+    (hk : k + vs.length ≤ n) : AdvOk n (afeed s k vs) := by
+  induction vs generalizing s k with
+  | nil => simpa [afeed] using h
+  | cons v r ih =>
+    obtain ⟨p, l⟩ := v
+    simp only [List.length_cons] at hk
+    simp only [afeed]
+    exact ih _ (k + 1) (adv_vertex_ok h p k l (by omega)) (by omega)
 
-/-- the quantity of lyon's own (commented-out) assertion in `push_triangle(a, b, c)`:
-`(a − b) × (c − b)`, twice the signed area of `(a, b, c)` in the emitted order (positive =
-counter-clockwise on a y-down screen). -/
-noncomputable def wind (a b c : P K) : K := (a - b).cross (c - b)
+open Lyon.SweepIdx in
+/-- every id of every triangle of `Adv.run seq` is `< seq.length` -/
+theorem run_ids_lt (seq : List (P α × Bool)) : TrisLt seq.length (Adv.run seq) := by
+  match seq with
+  | [] => intro t ht; simp [Adv.run] at ht
+  | [_] => intro t ht; simp [Adv.run] at ht
+  | (p0, b0) :: v1 :: rest =>
+    simp only [Adv.run, foldl_zipIdx_eq_afeed]
+    have hn : 0 < ((p0, b0) :: v1 :: rest).length := by simp
+    have h0 : AdvOk ((p0, b0) :: v1 :: rest).length (Adv.begin (Adv.new (α := α)) p0 0) := adv_begin_ok _ p0 0 hn
+    have h := afeed_ok (List.take ((v1 :: rest).length - 1) (v1 :: rest)) _ (0 + 1) h0 (by
+      simp only [List.length_take, List.length_cons]; omega)
+    exact (adv_end_ok h (((v1 :: rest).getLast?.map (·.1)).getD p0) (v1 :: rest).length (by simp)).tris
 
-theorem wind_swap (a b c : P K) : wind b a c = -wind a b c := by
-  simp only [wind]; geom_ring
-
-/-- the vertex record carries the position registered for its id -/
-def Good (pos : Nat → P K) (v : MV K) : Prop := v.pos = pos v.id
-
-/-- triangle `t` (ids) is non-negatively oriented in its emitted order -/
-def TriWind (pos : Nat → P K) (t : Tri) : Prop := 0 ≤ wind (pos t.1) (pos t.2.1) (pos t.2.2)
-
-theorem fanTri_cases (cur a b : MV K) :
-    (fanTri cur a b = (a.id, b.id, cur.id) ∧ 0 ≤ wind a.pos b.pos cur.pos) ∨
-    (fanTri cur a b = (b.id, a.id, cur.id) ∧ 0 < wind b.pos a.pos cur.pos) := by
-  unfold fanTri
-  by_cases h : Scalar.zero ≤ (a.pos - b.pos).cross (cur.pos - b.pos)
-  · left
-    rw [if_pos h]
-    exact ⟨rfl, by simpa [wind, geom] using h⟩
-  · right
-    rw [if_neg h]
-    refine ⟨rfl, ?_⟩
-    rw [wind_swap]
-    have : ¬ (0 ≤ wind a.pos b.pos cur.pos) := by simpa [wind, geom] using h
-    linarith [not_le.mp this]
-
-theorem earTri_cases (cur lp top : MV K) (h : earConvex cur lp top = true) :
-    (cur.left = true ∧ earTri cur lp top = (top.id, lp.id, cur.id) ∧ 0 ≤ wind top.pos lp.pos cur.pos) ∨
-    (cur.left = false ∧ earTri cur lp top = (lp.id, top.id, cur.id) ∧ 0 ≤ wind lp.pos top.pos cur.pos) := by
-  unfold earConvex at h
-  unfold earTri
-  cases hl : cur.left
-  · right
-    simp only [hl, Bool.false_eq_true, if_false, decide_eq_true_eq, true_and] at h ⊢
-    have e : wind lp.pos top.pos cur.pos = (cur.pos - lp.pos).cross (top.pos - lp.pos) := by
-      simp only [wind]; geom_ring
-    rw [e]; simpa [geom] using h
-  · left
-    simp only [hl, if_true, decide_eq_true_eq, true_and] at h ⊢
-    have e : wind top.pos lp.pos cur.pos = (cur.pos - top.pos).cross (lp.pos - top.pos) := by
-      simp only [wind]; geom_ring
-    rw [e]; simpa [geom] using h
-
-
-theorem fanTri_wind (pos : Nat → P K) (cur a b : MV K) (hc : Good pos cur) (ha : Good pos a) (hb : Good pos b) :
-    TriWind pos (fanTri cur a b) := by
-  unfold Good at hc ha hb
-  rcases fanTri_cases cur a b with ⟨e, h⟩ | ⟨e, h⟩
-  · rw [e]; simp only [TriWind]; rw [← hc, ← ha, ← hb]; exact h
-  · rw [e]; simp only [TriWind]; rw [← hc, ← ha, ← hb]; exact le_of_lt h
-
-theorem fanTris_wind (pos : Nat → P K) (cur : MV K) (l : List (MV K)) (hc : Good pos cur)
-    (hl : ∀ v ∈ l, Good pos v) : ∀ t ∈ fanTris cur l, TriWind pos t := by
-  induction l with
-  | nil => intro t ht; simp [fanTris] at ht
-  | cons a r ih =>
-    cases r with
-    | nil => intro t ht; simp [fanTris] at ht
-    | cons b r' =>
-      intro t ht
-      simp only [fanTris, List.mem_cons] at ht
-      rcases ht with ht | ht
-      · subst ht
-        exact fanTri_wind pos cur a b hc (hl a (by simp)) (hl b (by simp))
-      · exact ih (fun v hv => hl v (List.mem_cons_of_mem _ hv)) t ht
-
-theorem earTri_wind (pos : Nat → P K) (cur lp top : MV K) (hc : Good pos cur) (hlp : Good pos lp)
-    (ht : Good pos top) (h : earConvex cur lp top = true) : TriWind pos (earTri cur lp top) := by
-  unfold Good at hc hlp ht
-  rcases earTri_cases cur lp top h with ⟨_, e, g⟩ | ⟨_, e, g⟩
-  · rw [e]; simp only [TriWind]; rw [← hc, ← hlp, ← ht]; exact g
-  · rw [e]; simp only [TriWind]; rw [← hc, ← hlp, ← ht]; exact g
-
-theorem popLoop_wind (pos : Nat → P K) (cur lp : MV K) (st : List (MV K)) (hc : Good pos cur)
-    (hlp : Good pos lp) (hst : ∀ v ∈ st, Good pos v) :
-    (∀ v ∈ (popLoop cur lp st).1, Good pos v) ∧ ∀ t ∈ (popLoop cur lp st).2, TriWind pos t := by
-  induction st generalizing lp with
-  | nil => simp [popLoop, hlp]
-  | cons top rest ih =>
-    have htop := hst top (by simp)
-    have hrest : ∀ v ∈ rest, Good pos v := fun v hv => hst v (List.mem_cons_of_mem _ hv)
-    simp only [popLoop]
-    split
-    · rename_i hconv
-      have := ih top htop hrest
-      refine ⟨this.1, ?_⟩
-      intro t ht
-      simp only [List.mem_cons] at ht
-      rcases ht with ht | ht
-      · subst ht; exact earTri_wind pos cur lp top hc hlp htop hconv
-      · exact this.2 t ht
-    · refine ⟨?_, by simp⟩
-      intro v hv
-      simp only [List.mem_cons] at hv
-      rcases hv with hv | hv | hv
-      · subst hv; exact hlp
-      · subst hv; exact htop
-      · exact hrest v hv
-
-/-- positions consistent with ids, all triangles so far non-negatively oriented -/
-def GInv (pos : Nat → P K) (s : Basic K) : Prop :=
-  (∀ v ∈ s.stack, Good pos v) ∧ Good pos s.previous ∧ ∀ t ∈ s.tris, TriWind pos t
-
-theorem vertex_gInv (pos : Nat → P K) (s : Basic K) (cur : MV K) (h : GInv pos s) (hc : Good pos cur) :
-    GInv pos (s.vertex cur) := by
-  obtain ⟨hs, hp, ht⟩ := h
-  unfold Basic.vertex
-  split
-  · refine ⟨?_, hc, ?_⟩
-    · intro v hv
-      simp only [List.mem_cons, List.not_mem_nil, or_false] at hv
-      rcases hv with hv | hv <;> subst hv <;> assumption
-    · intro t h
-      rcases List.mem_append.mp h with g | g
-      · exact ht t g
-      · exact fanTris_wind pos cur _ hc (fun v hv => hs v (List.mem_reverse.mp hv)) t g
-  · cases hst : s.stack with
-    | nil =>
-      refine ⟨?_, hc, ht⟩
-      intro v hv
-      simp only [List.mem_cons, List.not_mem_nil, or_false] at hv
-      subst hv; exact hc
-    | cons top rest =>
-      rw [hst] at hs
-      have sp := popLoop_wind pos cur top rest hc (hs top (by simp)) (fun v hv => hs v (List.mem_cons_of_mem _ hv))
-      refine ⟨?_, hc, ?_⟩
-      · intro v hv
-        simp only [List.mem_cons] at hv
-        rcases hv with hv | hv
-        · subst hv; exact hc
-        · exact sp.1 v hv
-      · intro t h
-        rcases List.mem_append.mp h with g | g
-        · exact ht t g
-        · exact sp.2 t g
-
-theorem feed_gInv (pos : Nat → P K) (vs : List (P K × Bool)) (s : Basic K) (k : Nat)
-    (hpos : ∀ i (h : i < vs.length), pos (k + i) = vs[i].1) (h : GInv pos s) : GInv pos (feed s k vs) := by
+open Lyon.SweepIdx in
+theorem bfeed_ok {n : Nat} (vs : List (P α × Bool)) (s : Basic α) (k : Nat) (h : BasicOk n s)
+    (hk : k + vs.length ≤ n) : BasicOk n (feed s k vs) := by
   induction vs generalizing s k with
   | nil => simpa [feed] using h
   | cons v r ih =>
     obtain ⟨p, l⟩ := v
+    simp only [List.length_cons] at hk
     simp only [feed]
-    apply ih
-    · intro i hi
-      have := hpos (i + 1) (by simp only [List.length_cons]; omega)
-      simp only [List.getElem_cons_succ] at this
-      rw [← this]; congr 1; omega
-    · apply vertex_gInv pos s _ h
-      have := hpos 0 (by simp)
-      simpa [Good] using this.symm
+    exact ih _ (k + 1) (basic_vertex_ok h ⟨p, k, l⟩ (by show k < n; omega)) (by omega)
 
-/-- position of vertex `i` of a fed sequence -/
-def posOf (seq : List (P K × Bool)) (i : Nat) : P K :=
-  match seq[i]? with
-  | some v => v.1
-  | none => ⟨0, 0⟩
-
-theorem run_gInv (seq : List (P K × Bool)) : ∀ t ∈ Basic.run seq, TriWind (posOf seq) t := by
+open Lyon.SweepIdx in
+/-- the same for the basic tessellator -/
+theorem basic_run_ids_lt (seq : List (P α × Bool)) : TrisLt seq.length (Basic.run seq) := by
   match seq with
   | [] => intro t ht; simp [Basic.run] at ht
   | [_] => intro t ht; simp [Basic.run] at ht
   | (p0, b0) :: v1 :: rest =>
     simp only [Basic.run, foldl_zipIdx_eq_feed]
-    intro t ht
-    have h0 : GInv (posOf ((p0, b0) :: v1 :: rest)) (Basic.begin p0 0) := by
-      simp [GInv, Basic.begin, Good, posOf]
-    have h := feed_gInv (posOf ((p0, b0) :: v1 :: rest)) (List.take ((v1 :: rest).length - 1) (v1 :: rest))
-      (Basic.begin p0 0) (0 + 1) (by
-        intro i hi
-        simp only [List.length_take, List.length_cons] at hi
-        simp only [posOf, List.getElem_take]
-        rw [show 0 + 1 + i = i + 1 by omega, List.getElem?_cons_succ,
-          List.getElem?_eq_getElem (by simp only [List.length_cons]; omega)]) h0
-    simp only [Basic.end_] at ht
-    refine (vertex_gInv _ _ _ h ?_).2.2 t ht
-    simp only [Good, posOf, List.length_cons, List.getElem?_cons_succ]
-    rw [List.getLast?_eq_getElem?]
-    simp only [List.length_cons, Nat.add_sub_cancel]
-    rw [List.getElem?_eq_getElem (by simp only [List.length_cons]; omega)]
-    rfl
+    have hn : 0 < ((p0, b0) :: v1 :: rest).length := by simp
+    have h0 : BasicOk ((p0, b0) :: v1 :: rest).length (Basic.begin p0 0) := basic_begin_ok p0 0 hn
+    have h := bfeed_ok (List.take ((v1 :: rest).length - 1) (v1 :: rest)) _ (0 + 1) h0 (by
+      simp only [List.length_take, List.length_cons]; omega)
+    exact (basic_end_ok h (((v1 :: rest).getLast?.map (·.1)).getD p0) (v1 :: rest).length (by simp)).tris
 
-end Geometry
-
-end Lyon.C02b
+end Lyon.C02c
